@@ -590,13 +590,14 @@ def r3(run: Run, src):
 
 
 def run(run: Run):
+    from .common import cached_guard as _cached_guard
     src = get_source()
     rt = get_runtime(src)
     run.rule('C04.R1', 'override store keyed by uid, order-preserving, new-over-old, every batch stored and flushed')
     run.rule('C04.R2', 'the formula is invoked only on an override miss')
     run.rule('C04.R3', 'any address can be overridden; sizes only grow; blank fallback')
-    run.guard('C04.R1', r1, run, src, rt)
-    run.guard('C04.R2', r2, run, rt)
+    _cached_guard(run, 'C04.R1', r1, src, rt)
+    _cached_guard(run, 'C04.R2', r2, rt)
     if not run.extra.get('executor_by_evaluation'):
         run.guard('C04.R3', r3, run, src)          # growth of the sizes: part of the evaluated histories otherwise
     # an override only reaches a reference that goes through the override-aware accessor: references are minted by the context
@@ -610,7 +611,7 @@ def run(run: Run):
     borrow(run, 'C04.R5', c03.r2, src, get_callgraph(src))
     run.floor('C04.R5', 10)
     run.rule('C04.R7', 'no translator specialises the emitted code on the stored value of a referenced cell')
-    run.guard('C04.R7', r7_no_value_specialisation, run, src, get_emission(src))
+    _cached_guard(run, 'C04.R7', r7_no_value_specialisation, src, get_emission(src))
     run.floor('C04.R7', 20)
     from . import c08
     run.rule('C04.R6', 'no runtime method keeps computed values or other state between queries (shared with C08.R1/R4): an override '
@@ -620,7 +621,7 @@ def run(run: Run):
     run.floor('C04.R6', 50)
     from .common import check_per_instance_state
     run.rule('C04.R4', 'overrides are per instance: no class-level mutable state is changed in place or handed out')
-    run.guard('C04.R4', check_per_instance_state, run, 'C04.R4', get_runtime(get_source()))
+    _cached_guard(run, 'C04.R4', check_per_instance_state, 'C04.R4', get_runtime(get_source()))
     run.floor('C04.R4', 6)
     run.floor('C04.R1', 8)
     run.floor('C04.R2', 4)
@@ -628,6 +629,6 @@ def run(run: Run):
     from . import pipeline_eval as _pe
     from ..grammar import get_grammar as _gg_pe
     run.rule('C04.R8', 'overrides of constants, formula cells and zero change every dependent cell as an edit of the workbook would, end to end by evaluation')
-    run.guard('C04.R8', _pe.book_obligations, run, 'C04.R8', 'C04.R8', get_source(), _gg_pe(get_source()))
+    _cached_guard(run, 'C04.R8', _pe.book_obligations, 'C04.R8', 'C04.R8', get_source(), _gg_pe(get_source()))
     run.floor('C04.R8', 25)
     return INFO
